@@ -455,6 +455,15 @@ def special_cases() -> List[dict]:
                                     ["YN:A", {"nodes": [N1], "edges": [["u1", "pT:A", ["n1"]]], "ext": ["n1"]}],
                                     ["XN:A", {"nodes": [N1], "edges": [["u2", "qT:A", ["n1"]]], "ext": ["n1"]}]]}
     cases.append({"kind": "pair", "tags": ["mixed-implicit-explicit-nonterminal-edge-ids"], "g1": m1, "g2": m2})
+    # --- a recursive start symbol: below the root, start rules of one grammar pair with non-start rules of the other -----
+    r1 = {"start": "SN:", "rules": [["SN:", {"nodes": [N1], "edges": [["t0", "aT:A", ["n1"]], ["e1", "SN:", []]], "ext": []}],
+                                    ["SN:", {"nodes": [N1], "edges": [["t0", "bT:A", ["n1"]]], "ext": []}]]}
+    r2 = {"start": "SN:", "rules": [["SN:", {"nodes": [N1], "edges": [["e1", "XN:", []]], "ext": []}],
+                                    ["XN:", {"nodes": [N1], "edges": [["t0", "cT:A", ["n1"]], ["e1", "XN:", []]], "ext": []}],
+                                    ["XN:", {"nodes": [N1], "edges": [["e1", "XN:", []]], "ext": []}],
+                                    ["XN:", {"nodes": [N1], "edges": [], "ext": []}]]}
+    cases.append({"kind": "pair", "tags": ["recursive-start-symbol", "start-rule-pairs-with-non-start-rule"], "g1": r1, "g2": r2})
+    cases.append({"kind": "pair", "tags": ["recursive-start-symbol", "start-rule-pairs-with-non-start-rule"], "g1": r2, "g2": r1})
     return cases
 
 
